@@ -68,6 +68,12 @@ def execute(job):
                 target = xr.DataArray(np.array(real_lev), dims=[N("col"), N("lev")])
                 kw["target_dim"] = N("lev")
                 exp_dim = "lev"
+            if job["seed"] % 4 == 0:
+                # an earlier transform on the same Grid with other options
+                try:
+                    grid.transform(da, N("Z"), real_lev[0], target_data=td, method="linear", mask_edges=not job["mask"], suffix="_earlier")
+                except Exception:
+                    pass
             if job.get("td_default"):
                 res = grid.transform(da.assign_coords({N("zc"): ds[N("zc")]}), N("Z"), target, **kw)
             else:
